@@ -13,6 +13,9 @@ pub struct FileCase {
     pub ctor: Ctor,
     pub fin: Finish,
     pub disk: bool,
+    /// finalize() is also called after shape i when bit i (mod 32) is set
+    #[serde(default)]
+    pub mid_fins: u32,
     pub geoms: Vec<Geom>,
 }
 
@@ -43,13 +46,45 @@ pub fn file_case(g: FileGen) -> BoxedStrategy<FileCase> {
         max_pts,
         disk_every,
     } = g;
-    (gen::ty13(), ctor(), finish(), 0u32..disk_every.max(1))
-        .prop_flat_map(move |(ty, ctor, fin, d)| {
+    let fins = prop_oneof![3 => Just(0u32), 2 => any::<u32>(), 1 => (0u32..32).prop_map(|b| 1 << b)];
+    (gen::ty13(), ctor(), finish(), 0u32..disk_every.max(1), fins)
+        .prop_flat_map(move |(ty, ctor, fin, d, mid_fins)| {
             gen::shapes(ty, min_n, max_n, nan_zm, max_parts, max_pts).prop_map(move |geoms| FileCase {
                 ty,
                 ctor,
                 fin,
                 disk: disk_every > 0 && d == 0,
+                mid_fins,
+                geoms,
+            })
+        })
+        .boxed()
+}
+
+/// Files with MANY records / parts / points: thresholds such as "more than 128 index entries" or
+/// "more than 64 points in a part" are only reachable with sizes the skewed generator rarely draws.
+pub fn large_file_case(nan_zm: bool) -> BoxedStrategy<FileCase> {
+    let fins = prop_oneof![2 => Just(0u32), 1 => any::<u32>()];
+    (gen::ty13(), ctor(), finish(), fins, 0u8..3, gen::profile_mix())
+        .prop_flat_map(move |(ty, ctor, fin, mid_fins, mode, prof)| {
+            // mode 0: many records of tiny shapes; 1: few shapes with many parts; 2: few shapes with many points
+            let (n, parts, pts) = match mode {
+                0 => (130usize..=420, 2usize, 3usize),
+                1 => (1usize..=3, 330usize, 3usize),
+                _ => (1usize..=3, 3usize, 300usize),
+            };
+            let cfg = gen::GenCfg::new(prof, nan_zm, parts, pts);
+            let g = match mode {
+                0 => gen::geom(ty, cfg),
+                1 => gen::geom_sized(ty, cfg, 260..=parts, 0..=3),
+                _ => gen::geom_sized(ty, cfg, 1..=3, 70..=pts),
+            };
+            proptest::collection::vec(g, n).prop_map(move |geoms| FileCase {
+                ty,
+                ctor,
+                fin,
+                disk: false,
+                mid_fins,
                 geoms,
             })
         })
